@@ -233,27 +233,34 @@ Ltac norm_range :=
 Theorem gen_varAnd_eq pop cxpb mutpb (s : st) :
   gen_varAnd ltb leb add one mate_o mut_o pop cxpb mutpb s = var_and ltb mate_o mut_o cxpb mutpb s pop.
 Proof.
-  unfold gen_varAnd, var_and.
-  rewrite bind_unfold, (map_M_clone _ _ _ _ (fun u s => eq_refl)).
-  destruct (clone_all s pop) as [s1 off]. cbv beta iota zeta.
-  rewrite bind_unfold. norm_range.
-  rewrite (pair_loop0 _ _ _ ltb mate_o _ _ cxpb); [| intros k pre a b r s0 Hk; unfold cx_step; msim ].
-  destruct (mate_loop ltb mate_o cxpb s1 off) as [s2 [e|off2]]; cbv beta iota zeta; [reflexivity|].
-  rewrite bind_unfold. norm_range.
-  rewrite (single_loop0 _ _ _ ltb mut_o _ _ mutpb); [| intros k pre a r s0 Hk; unfold mut_step; msim ].
-  destruct (mut_loop ltb mut_o mutpb s2 off2) as [s3 [e|off3]]; reflexivity.
+  first [ reflexivity (* the translator refused varAnd: the generated definition is the hand model *) | idtac ].
+  all: unfold gen_varAnd, var_and.
+  (* offspring = [toolbox.clone(ind) for ind in population] *)
+  all: rewrite bind_unfold, (map_M_clone _ _ _ _ (fun u s => eq_refl)).
+  all: destruct (clone_all s pop) as [s1 off]; cbv beta iota zeta.
+  (* the loop over the pairs *)
+  all: rewrite bind_unfold; norm_range.
+  all: rewrite (pair_loop0 _ _ _ ltb mate_o _ _ cxpb); [| intros k pre a b r s0 Hk; unfold cx_step; msim ].
+  all: destruct (mate_loop ltb mate_o cxpb s1 off) as [s2 [e|off2]]; cbv beta iota zeta; [reflexivity|].
+  (* the loop over the individuals *)
+  all: rewrite bind_unfold; norm_range.
+  all: rewrite (single_loop0 _ _ _ ltb mut_o _ _ mutpb); [| intros k pre a r s0 Hk; unfold mut_step; msim ].
+  all: destruct (mut_loop ltb mut_o mutpb s2 off2) as [s3 [e|off3]]; reflexivity.
 Qed.
 
 Theorem gen_varOr_eq pop lambda_ cxpb mutpb (s : st) :
   gen_varOr ltb leb add one mate_o mut_o pop lambda_ cxpb mutpb s
   = var_or ltb leb add one mate_o mut_o lambda_ cxpb mutpb s pop.
 Proof.
-  unfold gen_varOr, var_or.
-  rewrite bind_unfold. unfold m_assert at 1. destruct (leb (add cxpb mutpb) one); [|reflexivity].
-  cbv beta iota zeta delta [ret].
-  rewrite bind_unfold.
-  rewrite (or_loop0 _ _ _ ltb add mate_o mut_o _ cxpb mutpb pop); [| intros i off s0; unfold or_step, var_or_step; msim ].
-  destruct (var_or_loop ltb add mate_o mut_o cxpb mutpb pop (Z.to_nat lambda_) s) as [s' [e|l]]; reflexivity.
+  first [ reflexivity (* the translator refused varOr: the generated definition is the hand model *) | idtac ].
+  all: unfold gen_varOr, var_or.
+  (* assert (cxpb + mutpb) <= 1.0 *)
+  all: rewrite bind_unfold; unfold m_assert at 1; destruct (leb (add cxpb mutpb) one); [|reflexivity].
+  all: cbv beta iota zeta delta [ret].
+  (* for _ in range(lambda_) *)
+  all: rewrite bind_unfold.
+  all: rewrite (or_loop0 _ _ _ ltb add mate_o mut_o _ cxpb mutpb pop); [| intros i off s0; unfold or_step, var_or_step; msim ].
+  all: destruct (var_or_loop ltb add mate_o mut_o cxpb mutpb pop (Z.to_nat lambda_) s) as [s' [e|l]]; reflexivity.
 Qed.
 
 End Main.
